@@ -75,7 +75,8 @@ class Analysis:
     def __init__(self, model, fn, summaries, ro_armed=True):
         self.model, self.fn, self.summ, self.ro_armed = model, fn, summaries, ro_armed
         self.env, self.kind = {}, {}
-        self.mut = set()        # (root object, site text, node lineno, construct)
+        self.mut = set()        # (root object, node lineno, construct, via)
+        self.direct = set()     # parameters whose OWN top level is written (not merely something reachable from them)
         self.lost = []          # (lineno, construct)
         self.rowrite = []       # (lineno, construct, via)
         self.retobjs = set()
@@ -407,7 +408,7 @@ class Analysis:
         short = q.rsplit('.', 1)[-1]
         for p in s['mut']:
             if p in bind:
-                self.write(self.expand(bind[p]), n, via=f'{short}({p})', construct=f'{short}(... {p} ...)')
+                self.write(self.expand(bind[p]), n, via=f'{short}({p})', construct=f'{short}(... {p} ...)', direct_ok=p in s.get('direct', ()))
         if fn.cls and params[:1] == ['self'] and 'self' in bind:
             for attr in s.get('selfmut', ()):
                 for b in bind['self']:
@@ -432,9 +433,11 @@ class Analysis:
         return out or {F}
 
     # ------------------------------------------------------------------ writes
-    def write(self, objs, node, via=None, construct=None):
+    def write(self, objs, node, via=None, construct=None, direct_ok=True):
         construct = construct or _norm(node)
         for x in self.expand(objs):
+            if x[0] == 'P' and direct_ok:
+                self.direct.add(x[1])
             if x[0] == 'RO':
                 self.rowrite.append((node.lineno, construct, via))
             if x[0] == 'Tmp' and via is None:
@@ -623,7 +626,7 @@ def _norm_target(t):
 
 
 def summarise(model, ro_armed=True, max_rounds=8):
-    summ = {q: {'mut': set(), 'ret': {F}, 'selfmut': set()} for q in model.funcs}
+    summ = {q: {'mut': set(), 'ret': {F}, 'selfmut': set(), 'direct': set()} for q in model.funcs}
     details = {}
     rounds = 0
     for rounds in range(1, max_rounds + 1):
@@ -638,7 +641,7 @@ def summarise(model, ro_armed=True, max_rounds=8):
                     ret.add(r)
                 else:
                     ret.add(F)
-            new = {'mut': mut, 'ret': ret or {F}, 'selfmut': selfmut}
+            new = {'mut': mut, 'ret': ret or {F}, 'selfmut': selfmut, 'direct': set(a.direct) & mut}
             if new != summ[q]:
                 summ[q] = new
                 changed = True
